@@ -258,6 +258,10 @@ def m_switch(ispec, ms):
             out.append(l.copy(pres=l.pres & (b == i), form=("dyn" if l.form == "conc" else l.form)))
         W |= m.W
         nd += m.ndyn
+    for x in out:
+        for y in out:
+            if x.p == y.p and x.kind == "f" and y.kind == "f" and x.fvec != y.fvec:
+                raise Skip("vector-flag-vs-scalar-flag")  # Mask.or_n of the branches rejects the flag shapes
     return Model(out, W, nd)
 
 
